@@ -101,13 +101,19 @@ impl From<Error> for io::Error {
     /// }
     /// ```
     fn from(l: Error) -> Self {
-        if let ErrorImpl::Io(err) = *l.0 {
-            err
-        } else {
-            match l.classify() {
-                Category::Io => unreachable!(),
-                Category::Syntax | Category::Data => io::Error::new(io::ErrorKind::InvalidData, l),
-                Category::Eof => io::Error::new(io::ErrorKind::UnexpectedEof, l),
+        match *l.0 {
+            ErrorImpl::Io(err) => err,
+            // An I/O error that surfaced through the parser is handed back, too.
+            ErrorImpl::Parse(err) if err.is_io() => err.into(),
+            other => {
+                let l = Error(Box::new(other));
+                match l.classify() {
+                    Category::Io => unreachable!(),
+                    Category::Syntax | Category::Data => {
+                        io::Error::new(io::ErrorKind::InvalidData, l)
+                    }
+                    Category::Eof => io::Error::new(io::ErrorKind::UnexpectedEof, l),
+                }
             }
         }
     }
